@@ -315,6 +315,163 @@ func nriStacks() string {
 	return strings.Join(out, "\n\n")
 }
 
+
+// recvN reads n complete messages from c (through a fresh parser starting at sequence seq0) or reports why not.
+func recvN(c net.Conn, id uint32, seq0 uint32, n int, d time.Duration) string {
+	p := newStreamParser(id)
+	p.next[0] = seq0
+	done := make(chan string, 1)
+	go func() {
+		buf := make([]byte, muxFrameMax)
+		for len(p.msgs) < n {
+			k, err := c.Read(buf)
+			if err != nil {
+				done <- fmt.Sprintf("read error after %d of %d messages: %v", len(p.msgs), n, err)
+				return
+			}
+			if !p.feed(buf[:k]) {
+				done <- p.err
+				return
+			}
+		}
+		done <- ""
+	}()
+	select {
+	case r := <-done:
+		return r
+	case <-time.After(d):
+		return fmt.Sprintf("only %d of %d messages arrived within %s", len(p.msgs), n, d)
+	}
+}
+
+func sendN(c net.Conn, id uint32, seq0 uint32, n int) error {
+	for i := 0; i < n; i++ {
+		if _, err := c.Write(buildMsg(id, 0, seq0+uint32(i), 10+i)); err != nil {
+			return err
+		}
+	}
+	return nil
+}
+
+// c10Handles: connection handles obtained concurrently, closed and obtained again still carry the
+// stream of their connection id, and a locally closed connection does not disturb the others.
+func c10Handles(g *rand.Rand, res *ev.Result, trunk string, tag string) {
+	a, b, err := trunkPair(trunk)
+	if err != nil {
+		return
+	}
+	qlen := 8
+	ma := multiplex.Multiplex(a, multiplex.WithReadQueueLength(qlen))
+	mb := multiplex.Multiplex(b, multiplex.WithReadQueueLength(qlen))
+	defer ma.Close()
+	defer mb.Close()
+	what := map[string]any{"scenario": "handles", "trunk": trunk, "tag": tag}
+	viol := func(sig, msg string) { res.Violate("C10/"+sig, msg, what) }
+	// (a) concurrent Open of one id from several goroutines on both ends
+	for round := 0; round < 40; round++ {
+		id := uint32(1000 + round)
+		n := 2 + g.IntN(7)
+		open := func(m multiplex.Mux) []net.Conn {
+			hs := make([]net.Conn, n)
+			var wg sync.WaitGroup
+			start := make(chan struct{})
+			for i := range hs {
+				wg.Add(1)
+				go func(i int) {
+					defer wg.Done()
+					<-start
+					if i%2 == 0 {
+						hs[i], _ = m.Open(multiplex.ConnID(id))
+					} else {
+						hs[i], _ = m.Dialer(multiplex.ConnID(id))("", "")
+					}
+				}(i)
+			}
+			close(start)
+			wg.Wait()
+			return hs
+		}
+		ha, hb := open(ma), open(mb)
+		wa, rb := ha[g.IntN(n)], hb[g.IntN(n)]
+		if wa == nil || rb == nil {
+			viol("open-error", "Open returned no connection")
+			return
+		}
+		if err := sendN(wa, id, 0, 3); err != nil {
+			viol("write-error", fmt.Sprintf("conn %d: %v", id, err))
+			return
+		}
+		if r := recvN(rb, id, 0, 3, 5*time.Second); r != "" {
+			viol("concurrent-open-lost-stream", fmt.Sprintf("connection id %d was opened by %d goroutines at once; reading through one of the returned connections: %s", id, n, r))
+			return
+		}
+	}
+	res.Seen("handles|concurrent-open|" + trunk)
+	// (b) close and reopen on the receiving side, with and without a frame delivered before the close
+	for v := 0; v < 4; v++ {
+		id := uint32(2000 + v)
+		ca, _ := ma.Open(multiplex.ConnID(id))
+		cb, _ := mb.Open(multiplex.ConnID(id))
+		other, _ := ma.Open(multiplex.ConnID(2100))
+		otherB, _ := mb.Open(multiplex.ConnID(2100))
+		seq := uint32(0)
+		if v&1 != 0 { // traffic before the close
+			sendN(ca, id, 0, 2)
+			if r := recvN(cb, id, 0, 2, 5*time.Second); r != "" {
+				viol("stream-damaged", r)
+				return
+			}
+			seq = 2
+		}
+		cb.Close()
+		cb2, _ := mb.Open(multiplex.ConnID(id))
+		if v&2 != 0 { // a frame of another connection in between
+			sendN(other, 2100, uint32(v), 1)
+			recvN(otherB, 2100, uint32(v), 1, 5*time.Second)
+		}
+		if err := sendN(ca, id, seq, 3); err != nil {
+			viol("write-error", err.Error())
+			return
+		}
+		if r := recvN(cb2, id, seq, 3, 5*time.Second); r != "" {
+			viol("reopened-conn-lost-stream", fmt.Sprintf("connection id %d closed and opened again on the receiving end (traffic before close: %v, other traffic in between: %v): %s", id, v&1 != 0, v&2 != 0, r))
+			return
+		}
+		res.Seen(fmt.Sprintf("handles|reopen%d|%s", v, trunk))
+	}
+	// (c) a locally closed connection: frames still arriving for it are dropped and disturb nobody
+	{
+		xa, _ := ma.Open(3000)
+		xb, _ := mb.Open(3000)
+		ya, _ := ma.Open(3001)
+		yb, _ := mb.Open(3001)
+		sendN(xa, 3000, 0, 1)
+		recvN(xb, 3000, 0, 1, 5*time.Second)
+		xb.Close()
+		done := make(chan error, 1)
+		go func() { done <- sendN(xa, 3000, 1, 3*qlen) }()
+		select {
+		case err := <-done:
+			if err != nil {
+				viol("closed-conn-breaks-mux", fmt.Sprintf("writing to a connection the peer has closed locally failed: %v", err))
+				return
+			}
+		case <-time.After(10 * time.Second):
+			viol("stalled", "writes to a connection the peer closed locally block")
+			return
+		}
+		if err := sendN(ya, 3001, 0, 5); err != nil {
+			viol("closed-conn-breaks-mux", fmt.Sprintf("after %d frames for a locally closed connection the other connection cannot be written: %v", 3*qlen, err))
+			return
+		}
+		if r := recvN(yb, 3001, 0, 5, 5*time.Second); r != "" {
+			viol("closed-conn-breaks-mux", fmt.Sprintf("after %d frames for a locally closed connection the other connection is disturbed: %s", 3*qlen, r))
+			return
+		}
+		res.Seen("handles|closed-conn-isolation|" + trunk)
+	}
+}
+
 func runC10(c *ev.ChildEnv, res *ev.Result) {
 	rig.QuietLogs()
 	g := rand.New(rand.NewPCG(uint64(c.Seed), uint64(c.Batch)+1000))
@@ -332,6 +489,11 @@ func runC10(c *ev.ChildEnv, res *ev.Result) {
 	for i := 0; i < nBig; i++ {
 		rounds = append(rounds, c10Round{K: 1 + g.IntN(2), W: 2 + g.IntN(2), Qlen: []int{4, 8, 256}[g.IntN(3)],
 			Trunk: "socket", Msgs: 4, Sizes: "big", Hook: hooks && g.IntN(2) == 0})
+	}
+	for hi, trunk := range []string{"socket", "pipe"} {
+		c.WAL("handles %s", trunk)
+		res.Eval()
+		c10Handles(g, res, trunk, fmt.Sprintf("b%d-h%d", c.Batch, hi))
 	}
 	for i, rd := range rounds {
 		c.WAL("round %d %+v", i, rd)
